@@ -425,7 +425,7 @@ func c09Secret(t *T) []byte {
 	case 3: // lengths around the MD5 block boundaries of secret||salt and prevSum||secret||salt (8-byte salt, 16-byte prefix)
 		return rbytes(t, []int{39, 40, 41, 47, 48, 55, 56, 57, 63, 64, 65, 103, 104, 111, 112, 119, 120, 127, 128, 129}[t.R.Intn(20)])
 	case 4:
-		return rbytes(t, 41+t.R.Intn(160))
+		return rbytes(t, 41+t.R.Intn(160)*(1+t.R.Intn(5)))
 	default:
 		return rbytes(t, t.R.Intn(41))
 	}
@@ -517,6 +517,30 @@ func c09Gen(c *Ctx) {
 		default:
 			ad := rbytes(t, t.R.Intn(20))
 			t.Try("salt-gcm-decrypt-valid", c09Case(7, int64(t.R.Intn(2)), 0, flags, 0, 0, refGCMMessage(p, secret, salt, ad), secret, nil, ad, nil), true)
+		}
+	})
+	// B2. the key derivation over EVERY secret length up to a bound and around larger powers of two (a scratch buffer of
+	// 256/512/1024/4096 bytes for prevSum||secret||salt misjudged by a few bytes only shows for secrets in an 8-byte
+	// window below that size); message built independently, so a wrong key/IV is a decryption failure
+	var slen []int
+	for l := 0; l <= c.N(1100, 4300); l++ {
+		slen = append(slen, l)
+	}
+	for _, p2 := range []int{2048, 4096, 8192} {
+		for d := -48; d <= 8; d++ {
+			slen = append(slen, p2+d)
+		}
+	}
+	c.Each(len(slen), func(i int, t *T) {
+		secret, salt := rbytes(t, slen[i]), rbytes(t, 8)
+		p := rbytes(t, 1+t.R.Intn(20))
+		flags := int64(t.R.Intn(8))
+		if i%2 == 0 {
+			msg := []byte(base64.StdEncoding.EncodeToString(refCBCMessage(p, secret, salt)))
+			t.Try("secret-length-sweep", c09Case(1, 0, 0, flags, 0, 0, msg, secret, nil, nil, nil), true)
+		} else {
+			ad := rbytes(t, t.R.Intn(6))
+			t.Try("secret-length-sweep", c09Case(7, int64(t.R.Intn(2)), 0, flags, 0, 0, refGCMMessage(p, secret, salt, ad), secret, nil, ad, nil), true)
 		}
 	})
 	// E. streams: every chunk-plan style x terminal behaviour x data lengths around the header and block boundaries
